@@ -132,6 +132,8 @@ def run(prog: Program, chk: Check):
                         # synthesised reserved name: f"_RESERVED_{id:06d}" with the same id passed as id=
                         defs = [d for d in (dataflow.definitions(cf.node, ap) if ap else []) if d[0] != "param"]
                         synth = False
+                        if isinstance(actual, ast.JoinedStr):
+                            defs = [("assign", actual)]  # the synthesised name is written in place
                         if len(defs) == 1 and isinstance(defs[0][1], ast.JoinedStr):
                             js = defs[0][1]
                             fv = [v for v in js.values if isinstance(v, ast.FormattedValue)]
